@@ -11,6 +11,10 @@ THEOREMS = ["c02_reopen_same_walk", "c02_walk_determined", "c02_last_write_wins"
 # two handles to one owner, both having used the same link list; the list is emptied through one and
 # filled again through the other (a cached backend of a dropped container group must not swallow it)
 PRELUDES = [
+    [["create", 0, "CSections", "m", "t", []], ["create", 0, "CBlocks", "B", "t", []], ["create", 2, "CSources", "leaf", "t", []],
+     ["create", 2, "CGroups", "g", "t", []], ["create", 2, "CDataFrames", "df", "t", [1, 2]],
+     ["set_link", 3, "RMetadata", 1], ["set_link", 3, "RMetadata", None], ["set_link", 4, "RMetadata", 1], ["set_link", 4, "RMetadata", None],
+     ["set_link", 5, "RMetadata", 1], ["set_link", 5, "RMetadata", None], ["reopen", False]],
     [["create", 0, "CBlocks", "B", "t", []], ["create", 1, "CDataArrays", "a", "t", [1, 2]], ["create", 1, "CGroups", "g", "t", []],
      ["lookup", 1, "CGroups", ["name", "g"]], ["append", 3, "LDataArrays", 2], ["probe_link", 4, "LDataArrays"],
      ["remove", 3, "LDataArrays", ["pos", 0]], ["append", 4, "LDataArrays", 2], ["reopen", False]],
